@@ -167,6 +167,11 @@ func (u *Unit) intrinsic(fr *Frame, st *State, fn *ssa.Function, args []Val, whe
 
 	case "fmt.Errorf":
 		return u.fmtErrorf(fr, st, args, sig, where)
+	case "errors.New":
+		r := u.fresh(SInt, "errnew")
+		u.fact(fmt.Sprintf("(assert (> %s 1000000))", r.S))
+		u.assume(TTrue, Eq(App(SInt, "ErrMsg", r), u.termOf(args[0])))
+		return &Scalar{T: r, Typ: sig.Results().At(0).Type()}
 	case "fmt.Sprintf":
 		return u.freshVal(types.Typ[types.String], "sprintf", st.pc)
 	case "errors.Is":
